@@ -19,10 +19,10 @@ ASSUMPTIONS = ["faults are injected at the objfun boundary by the recording wrap
                "finding D22 (shared with C10): success flag with a non-finite objective only when no point with a finite objective exists anywhere "
                "in the history",
                "phase of a call is read from the Python call chain of the real code (no source change)"]
-NREF = {"quick": 78, "thorough": 800}
+NREF = {"quick": 80, "thorough": 800}
 KINDS = ["nan", "inf", "-inf", "1e200", "raise"]
 FAMILIES = ["plain", "bounded", "scaled", "projections", "soft", "hard", "hard_fresh", "averaging", "regression", "growing", "diagnostics",
-            "throw_on_nan", "diagnostics_soft"]
+            "throw_on_nan", "diagnostics_soft", "growing_soft", "regression_soft", "growing_hard"]
 CASE_TIMEOUT = {"quick": 600, "thorough": 1800}
 NSAMPLES = 5
 EXHAUSTIVE = True
@@ -58,9 +58,9 @@ def make_cfg(seed, i):
         cfg["proj"] = sets
         cfg["x0"] = (z + 0.3 * margin * rng.normal(size=n) / np.sqrt(n)).tolist()
         cfg["args"].update(rhobeg=float(0.3 * margin), rhoend=float(0.3 * margin * 1e-3), maxfun=14)
-    if fam in ("soft", "hard", "hard_fresh", "diagnostics_soft"):
+    if fam in ("soft", "hard", "hard_fresh", "diagnostics_soft", "growing_soft", "regression_soft", "growing_hard"):
         up["restarts.use_restarts"] = True
-        if fam.startswith("hard"):
+        if fam.startswith("hard") or fam == "growing_hard":
             up["restarts.use_soft_restarts"] = False
             if fam == "hard_fresh":
                 up["restarts.hard.use_old_rk"] = False
@@ -71,10 +71,21 @@ def make_cfg(seed, i):
         spec["noise"] = 1e-3
         spec["nseed"] = int(rng.integers(0, 2 ** 31))
         cfg["args"]["maxfun"] = 40
-    if fam == "regression":
+    if fam in ("growing_soft", "growing_hard"):
+        # a restart taken while the initial set is still growing (found by the C10 failpoints: IndexError in soft_restart)
+        if n == 1:
+            n = 2
+            spec.update(n=2, m=max(spec["m"], 2))
+            cfg["x0"] = (rng.normal(size=2) * 2).tolist()
+            cfg["lower"] = cfg["upper"] = None
+            cfg["args"].pop("rhobeg", None)
+            cfg["args"].pop("scaling_within_bounds", None)
+        up["growing.ndirs_initial"] = int(rng.integers(1, n))
+        up["growing.num_new_dirns_each_iter"] = int(rng.integers(0, 2))
+    if fam in ("regression", "regression_soft"):
         cfg["args"]["npt"] = int(rng.integers(n + 2, 2 * n + 2)) if n >= 1 else 2
         up["regression.num_extra_steps"] = int(rng.integers(0, 2))
-    if fam == "growing" and n > 1:
+    if fam == "growing" and n > 1 and "growing.ndirs_initial" not in up:
         up["growing.ndirs_initial"] = int(rng.integers(1, n))
         up["growing.num_new_dirns_each_iter"] = int(rng.integers(0, 2))
     if fam in ("diagnostics", "diagnostics_soft"):
